@@ -159,6 +159,7 @@ class RemoteServer():
                         if ctx_id in self.contexts:
                             logger.warning('Context {} already exists', ctx_id)
                             result = False
+                            context.terminate(timeout=1) # the rejected context has already spawned its helper process
                         else:
                             self.contexts[ctx_id] = context
 
